@@ -66,8 +66,12 @@ func drainChannel[T any](ch <-chan T) {
 
 func cleanInfiniteChannel(ch *channels.InfiniteChannel) {
 	ch.Close()
-	// drain all remaining items
-	drainChannel(ch.Out())
+	// Drain all remaining items. The channel's goroutine only terminates (and
+	// closes Out()) once every queued item has been consumed, and it offers the
+	// items asynchronously: a non-blocking drain can miss them and leak that
+	// goroutine, so read until Out() is closed.
+	for range ch.Out() {
+	}
 }
 
 // Returns the binary formatted Administrative Shutdown Communication from the
